@@ -90,11 +90,17 @@ def eval_py(P, mode, gcases, text_route=False):
                 built = G.build_from_text(P, gr)
             except ValueError:
                 built = None
-        cls, rules = built if built is not None else G.build(P, gr)
+        build_exc = None
+        if built is None:
+            try:
+                built = G.build(P, gr)
+            except Exception as e:  # noqa - the library refused/crashed while constructing a valid grammar
+                build_exc = "exc:" + type(e).__name__ + "-while-building-grammar"
+        cls, rules = built if built is not None else (None, [None])
         glines = G.grammar_wire(gr)
         exp = []
         for s, i in cases:
-            pys = py_outcomes(P, mode, rules[0], s, i)
+            pys = py_outcomes(P, mode, rules[0], s, i) if build_exc is None else [build_exc] * len(case_lines(mode, s, i))
             for line, py in zip(case_lines(mode, s, i), pys):
                 exp.append((s, i, line, py))
         res.append((glines, exp))
